@@ -339,3 +339,71 @@ Proof.
   - split; [reflexivity|]. split; [|simpl; lia].
     intros [|[|[|k]]] Hk; simpl in *; lia.
 Qed.
+
+(* re-ordering a list of bosonic exponents is a relabelling isomorphism of the
+   whole hierarchy generator, for every depth and every number of exponents:
+   with n' = n o pi and exps' = exps o pi, the ADO n' has a `next`/`prev`
+   neighbour through exponent j exactly when n has one through exponent pi[j],
+   the neighbours correspond under the label bijection, and the operator placed
+   on that block is the same operator (the cached super-operator index j of the
+   re-ordered list renamed to pi[j] of the original list); the diagonal decay
+   term is unchanged.  Together with C19_permutation_label_bijection this is
+   G_pi = P G P^-1 with P fixing rho_0.
+   Partial (named): all exponents bosonic - fermionic re-ordering changes the
+   sign factors (sign2 counts the fermionic excitations before k) and is not
+   covered *)
+Theorem C19_permutation_generator_isomorphism_bosonic_partial :
+  forall (C : Type) (c0 c1 : C) (cadd cmul : C -> C -> C) (cneg : C -> C) (ci : C)
+         (cconj : C -> C),
+    ring_theory c0 c1 cadd cmul (fun a b => cadd a (cneg b)) cneg eq ->
+    forall pi (exps : list (bexp C)) D odd (n : label) j,
+      Permutation pi (seq 0 (length exps)) ->
+      Forall (fun e => fermionic (e_type C e) = false) exps ->
+      length n = length exps -> j < length exps ->
+      let exps' := permute (dflt C c0) pi exps in
+      let n' := permute 0 pi n in
+      heom_dims C exps' D = permute 0 pi (heom_dims C exps D) /\
+      ados_next (heom_dims C exps' D) D n' j =
+        option_map (permute 0 pi) (ados_next (heom_dims C exps D) D n (nth j pi 0)) /\
+      ados_prev n' j = option_map (permute 0 pi) (ados_prev n (nth j pi 0)) /\
+      grad_next C c0 c1 cmul cneg ci exps n (nth j pi 0) odd =
+        option_map (ren (fun i => nth i pi 0)) (grad_next C c0 c1 cmul cneg ci exps' n' j odd) /\
+      grad_prev C c0 c1 cadd cmul cneg ci cconj exps n (nth j pi 0) odd =
+        option_map (ren (fun i => nth i pi 0))
+                   (grad_prev C c0 c1 cadd cmul cneg ci cconj exps' n' j odd) /\
+      grad_n C c0 c1 cadd cmul cneg exps' n' = grad_n C c0 c1 cadd cmul cneg exps n.
+Proof.
+  intros C c0 c1 cadd cmul cneg ci cconj Rth pi exps D odd n j P Hb Hl Hj exps' n'.
+  assert (Hlp : length pi = length exps) by (rewrite (Permutation_length P); apply seq_length).
+  assert (Hr : forall i, In i pi -> i < length exps).
+  { intros i Hi. assert (In i (seq 0 (length exps))) by (eapply Permutation_in; eassumption).
+    apply in_seq in H. lia. }
+  assert (Hd : heom_dims C exps' D = permute 0 pi (heom_dims C exps D))
+    by (apply heom_dims_permute; assumption).
+  assert (Hld : length (heom_dims C exps D) = length exps)
+    by (unfold heom_dims, ados_dims; now rewrite !map_length).
+  split; [exact Hd|]. split.
+  - rewrite Hd. apply next_permute; rewrite ?Hld; assumption.
+  - split; [apply (prev_permute (length exps)); assumption|]. split.
+    + apply grad_next_permute; [assumption|lia].
+    + split; [apply grad_prev_permute; [assumption|lia]|].
+      unfold grad_n. unfold exps', n'.
+      now rewrite (vk_sum_permute C c0 c1 cadd cmul cneg Rth (dflt C c0) pi exps n P Hl).
+Qed.
+Print Assumptions C19_permutation_generator_isomorphism_bosonic_partial.
+
+(* non-vacuity: R, I, RI exponents re-ordered by [2; 0; 1]; the ADO (1,2,0) of the
+   re-ordered hierarchy is (2,0,1) of the original one; its `prev` block through
+   exponent 0 (= original exponent 2, the RI one) is a non-zero operator *)
+Example C19_nonvacuous_permutation_generator :
+  let exps := [mkexp TR None 0 (1, 2)%Z (1, 0)%Z None None;
+               mkexp TI (Some 2) 1 (2, 0)%Z (2, 0)%Z None None;
+               mkexp TRI None 0 (1, 1)%Z (3, 1)%Z (Some (2, -1)%Z) None] in
+  let pi := [2; 0; 1] in
+  permute 0 pi [2; 0; 1] = [1; 2; 0] /\
+  heom_dims G (permute (dflt G g0) pi exps) 3 = [4; 4; 2] /\
+  grad_prev G g0 g1 gadd gmul gneg gi gconj (permute (dflt G g0) pi exps) [1; 2; 0] 0 false =
+    Some [((1, -1)%Z, BPre 0); ((-1, 1)%Z, BPost 0); ((2, -1)%Z, BPre 0); ((2, -1)%Z, BPost 0)] /\
+  grad_prev G g0 g1 gadd gmul gneg gi gconj exps [2; 0; 1] 2 false =
+    Some [((1, -1)%Z, BPre 2); ((-1, 1)%Z, BPost 2); ((2, -1)%Z, BPre 2); ((2, -1)%Z, BPost 2)].
+Proof. vm_compute. repeat split; reflexivity. Qed.
